@@ -189,6 +189,12 @@ def generate(rng, tier):
             ln = s.add("trace U F %s %s S %d" % (hx(a), regs, 260), tag="%s:world" % arch)
             s.meta[ln] = {"budget": 256, "arch": arch}
         out.append(("worldwalk-%s-%d" % (arch, rep), s))
+    # expressions that never finish in every position a row has (CFA, register rules by address and by value): a call
+    # that does not return is the plainest way for a walk not to terminate (S22; seeded change C10-12 evaluated the
+    # register-rule expressions in a function of their own, without the bound)
+    from props import C14 as _c14
+    for name, sc in _c14.dwarf_expr_loops(rng, tier):
+        out.append(("loops-" + name, sc))
     return out
 
 def parse_trace(line):
@@ -202,6 +208,9 @@ def parse_trace(line):
 
 def judge(script, impl):
     bad = []
+    for ln, line in impl.items():
+        if line is not None and vlib.outcome(line)[0] == "hang":
+            bad.append((ln, "the call did not return (watchdog): a walk through this frame never terminates: %s" % script.lines[ln - 1][:300]))
     for ln, m in script.meta.items():
         line = impl.get(ln)
         if line is None or not line.startswith("iter"):
